@@ -250,6 +250,16 @@ func sweepAka(r *Rng, emit func(rawCase), thorough bool) {
 						bits = 0
 					}
 					put16(b, 6, bits)
+				} else if k >= 2 && r.Intn(2) == 0 {
+					// every other attribute type too: the first 16 bits of the value look like an actual length, in octets
+					// or in bits, at and around what the window holds (a decoder that interprets them for a type that has
+					// no such field must show)
+					v := 4*l - 4
+					n := r.Pick([]int{0, 1, 2, 3, 5, v, v - 1, v - 2, v - 3, v - 5, k - 2, k - 3, 8 * v, 8*v - 8, 8 * (k - 2), r.Intn(4*l + 8)})
+					if n < 0 {
+						n = 0
+					}
+					put16(b, 6, n)
 				}
 				emit(rawCase{"eapdata_unmarshal", 50, b, "sweep-aka"})
 			}
